@@ -446,9 +446,49 @@ def needs_mc(name, spec):
     return later_site_after_mvd or ("enum_par" in sites and len(sites) > 1)
 
 
+def site_inside_cond_branch(G, A, ctx):
+    """Open finding adev-site-in-cond-branch: ADEV.forward_mode applies the continuation of a lax.cond only AFTER the whole branch has been
+    evaluated, so an enumeration / score-function / measure-valued site INSIDE a branch sees only the rest of the branch as its continuation.
+    With a non-linear computation after the cond the estimator is biased (exact for linear continuations).  Recognised as the known finding only
+    when the value equals the branch-local prediction  p (E[x | b=T])^2 + (1-p) p^2."""
+    import jax
+    import jax.numpy as jnp
+
+    def f(p, q):
+        b = A.flip_enum(p)
+        x = jax.lax.cond(b, lambda: jnp.where(A.flip_enum(q), 2.0, -1.0) * q, lambda: p)
+        return x ** 2
+
+    def f_lin(p, q):
+        b = A.flip_enum(p)
+        x = jax.lax.cond(b, lambda: jnp.where(A.flip_enum(q), 2.0, -1.0) * q, lambda: p)
+        return 3.0 * x + p
+
+    p, q = 0.3, 0.6
+    exact = p * (q * (2 * q) ** 2 + (1 - q) * q ** 2) + (1 - p) * p ** 2
+    asis = p * (q * 2 * q - (1 - q) * q) ** 2 + (1 - p) * p ** 2
+    exact_lin = 3 * (p * (q * 2 * q - (1 - q) * q) + (1 - p) * p) + p
+    case = {"kind": "site-inside-cond-branch", "p": p, "q": q, "exact": exact}
+    try:
+        got = float(A.expectation(f).estimate(jnp.float32(p), jnp.float32(q)))
+        lin = float(A.expectation(f_lin).estimate(jnp.float32(p), jnp.float32(q)))
+        case.update({"estimate": got, "branch_local_prediction": asis})
+        if abs(lin - exact_lin) > 1e-4:
+            ctx.property_failure(None, f"flip_enum inside a cond branch, LINEAR continuation: estimate {lin} != exact {exact_lin}", case)
+        if abs(got - exact) > 1e-4:
+            ctx.property_failure("adev-site-in-cond-branch", f"flip_enum (zero variance) inside a cond branch followed by x**2: estimate {got:.5f} != exact E[f] = {exact:.5f}",
+                                 case, matches_asis=abs(got - asis) < 1e-4)
+    except Exception as e:
+        impl.reset_handlers()
+        ctx.property_failure(None, f"site inside a cond branch raised {type(e).__name__}: {str(e)[:150]}", case)
+    ctx.case(sample=case, nontrivial_key="site-inside-cond-branch")
+    ctx.count("site-inside-cond-branch")
+
+
 def run(ctx, audit):
     G = impl.load()
     import genjax.adev as A
+    site_inside_cond_branch(G, A, ctx)
     P = programs(G, A)
     thetas = [0.25, 0.5, 0.625] if not ctx.thorough else [0.125, 0.25, 0.375, 0.5, 0.625, 0.75, 0.875]
     for name, spec in P.items():
